@@ -45,7 +45,9 @@ def num_cmp(a, b):
 
 def coll_key(b, coll):
     if coll == "nocase":
-        return bytes(c + 32 if 65 <= c <= 90 else c for c in b)
+        # SQLite's nocaseCollatingFunc: sqlite3StrNICmp over the common length stops at a NUL, then the lengths decide
+        p = b.split(b"\0", 1)[0]
+        return (bytes(c + 32 if 65 <= c <= 90 else c for c in p), len(b))
     if coll == "rtrim":
         return b.rstrip(b" ")
     return b
